@@ -23,7 +23,12 @@ oracle : (1) the REAL results of the two runs compared bound by bound (binary64 
          must reproduce the first result; the real operand / result objects of the last cases are kept alive and re-read
          later (they must still have their recorded value: shared buffers, in-place updates); every 14th case is evaluated
          a second time at the end of the run and must give the identical result.
-streams also cover: operands touching zero exactly; integer-dtype / list / positional representations of the same numbers;
+         (5) domain edges: where F(X) returned a value and the wider X' leaves the domain of F (a pole inside for negative
+         integer powers / the reciprocal, a negative lower end for sqrt / log), F(X') has to raise or to contain F(X): a
+         finite non-containing value is a failure.
+streams also cover: integer powers k in {-4..5} of intervals, interval vectors and p-boxes (contained operand one-signed, containing
+         one one-signed / touching zero / zero inside); p-boxes with one flat bound, unaligned steps, one zero-width step; the same
+         object on both sides (X op X, envelope(a, a)); operands touching zero exactly; integer-dtype / list / positional representations of the same numbers;
          thin but not degenerate operands (relative width 1e-9..1e-5, magnitudes down to 1e-9); constants below machine
          epsilon and above 1e15; interval vectors enumerating every pair of sign classes.  Rounding tolerances are relative
          to the magnitude of the intermediates of the operation (no absolute floor).
@@ -352,7 +357,8 @@ def impl(spec, inp):
         return guarded(lambda: fn(pbx.duck(*inp["x"]), pbx.duck(*inp["y"]), PYOPS[spec["op"]]))
     if f == "pb-bin":
         def run():
-            X, Y = stair(*inp["x"]), to_operand(spec.get("ykind", "pbox"), inp["y"])
+            X = stair(*inp["x"])
+            Y = X if spec.get("alias") else to_operand(spec.get("ykind", "pbox"), inp["y"])      # lesson F: X op X, one object
             if spec.get("bare"):
                 return PYOPS[spec["op"]](X, Y)
             return getattr(X, spec["op"])(Y, dependency=spec["dep"])
@@ -373,6 +379,8 @@ def impl(spec, inp):
     if f == "pb-agg":
         def run():
             ops = [to_operand(k, v) for k, v in zip(spec["kinds"], inp["ops"])]
+            if spec.get("alias"):
+                ops = [ops[0]] * len(ops)
             if spec["api"] == "method":
                 r = ops[0]
                 for o in ops[1:]:
@@ -1317,6 +1325,40 @@ def dyadic_box(l, r, bits=10):
     return [round(v * s) / s for v in l], [round(v * s) / s for v in r]
 
 
+def shaped_box200(rng, n=STEPS):
+    """lesson H: one flat bound and one varying bound (nested focal elements sharing an endpoint); step-shaped bounds
+    whose steps are NOT aligned between left and right (masses like 0.3/0.3/0.4 against 0.5/0.5), flat runs in the
+    interior; exactly one zero-width step"""
+    def steps(k, lo, hi):
+        cuts = sorted(rng.sample(range(1, n), k - 1)) if k > 1 else []
+        vals = sorted(rng.randint(lo, hi) for _ in range(k))
+        out, seg = [], 0
+        for i in range(n):
+            while seg < len(cuts) and i >= cuts[seg]:
+                seg += 1
+            out.append(vals[seg])
+        return out
+    kind = rng.choice(["flat-left", "flat-right", "unaligned", "unaligned", "one-point"])
+    if kind == "flat-left":
+        l = [rng.randint(-20, 5)] * n
+        r = steps(rng.choice([2, 3, 5, 9]), l[0], l[0] + 25)
+    elif kind == "flat-right":
+        r = [rng.randint(-5, 20)] * n
+        l = steps(rng.choice([2, 3, 5, 9]), r[0] - 25, r[0])
+    elif kind == "unaligned":
+        l = steps(rng.choice([2, 3, 4]), -20, 10)
+        r = steps(rng.choice([2, 3, 5]), -15, 25)
+        r = [max(a, b) for a, b in zip(l, r)]
+        r = [int(v) for v in np.maximum.accumulate(r)]
+    else:
+        l = steps(3, -10, 10)
+        r = [a + 3 for a in l]
+        j = rng.randrange(n)
+        r = [int(v) for v in np.maximum.accumulate([a if i == j else b for i, (a, b) in enumerate(zip(l, r))])]
+        r = [max(a, b) for a, b in zip(l, r)]
+    return l, r
+
+
 def base_box(rng, n, sign=None, general=False):
     """general: False = integer step box, "dyadic" = library box rounded to 2^-10, True = library box as is"""
     if n == STEPS:
@@ -1337,7 +1379,11 @@ def base_box(rng, n, sign=None, general=False):
                 if sign == "neg" and max(r) >= 0:
                     l, r = [v - 0.5 for v in l], [v - 0.5 for v in r]
             return l, r
-        l, r = pbx.int_box200(rng, sign)
+        if rng.random() < 0.3:
+            l, r = shaped_box200(rng)
+            l, r = pbx.shift_sign(l, r, sign)
+        else:
+            l, r = pbx.int_box200(rng, sign)
         return [int(v) for v in l], [int(v) for v in r]
     l, r = pbx.rand_small_box(rng, n, sign=sign)
     return list(l), list(r)
@@ -1426,7 +1472,7 @@ def gen_cases(ctx):
         cases.append({"stream": stream, "spec": spec, "runs": runs, "exact": exact, "nontrivial": nontriv})
 
     # ---- 1. scalar / vector intervals: one operator
-    for _ in range(S(700, 7000)):
+    for _ in range(S(500, 7000)):
         op = rng.choice(OPS4)
         form = rng.choice(["II", "II", "IN", "NI", "AA", "AI", "IA"])
         dy = rng.random() < 0.7
@@ -1499,12 +1545,80 @@ def gen_cases(ctx):
                     [{"x": x, "y": y}, {"x": x2, "y": y2}], exact=(dy and op != "div"), nontriv=(x != x2 or y != y2))
     # ---- 2. unary maps of an interval
     for _ in range(S(500, 6000)):
-        fn = rng.choice(["exp", "log", "sqrt", "abs", "pow2", "pow3", "tanh", "neg", "recip", "sin", "cos", "tan"])
+        fn = rng.choice(["exp", "log", "sqrt", "abs", "pow2", "pow3", "tanh", "neg", "recip", "sin", "cos", "tan", "powk", "powk"])
         dy = rng.random() < 0.6
         sign = "pos" if fn in ("log", "sqrt") and rng.random() < 0.8 else None
         x, x2 = pair_ivl(rng, sign, dy)
-        add("ivl-un", {"f": "ivl-un", "fn": fn}, [{"x": x}, {"x": x2}], exact=(dy and fn in ("abs", "pow2", "pow3", "neg")),
+        sp = {"f": "ivl-un", "fn": fn}
+        if fn == "powk":
+            sp["k"] = rng.choice([-4, -3, -2, -1, 0, 1, 2, 3, 4, 5])
+        add("ivl-un", sp, [{"x": x}, {"x": x2}], exact=(dy and fn in ("abs", "pow2", "pow3", "neg")),
             nontriv=(x != x2))
+    # ---- 2b. lesson G: integer powers, the negative ones k in {-1,-2,-3,-4} in particular, of intervals, interval vectors
+    #           and p-boxes; the contained operand is one-signed, the containing one one-signed too, or touching zero, or
+    #           with zero in its interior (then the call has to raise: a pole inside); both generation orders
+    def pole_pair(dy, cross):
+        m = rng.choice([0.5, 1, 2]) if dy else rng.uniform(0.3, 3)
+        w = rng.choice([0, 0.5, 1, 2]) if dy else rng.uniform(0, 3)
+        sgn = rng.choice([1, -1])
+        v = [m, m + w] if sgn > 0 else [-m - w, -m]
+        if cross == "same":
+            e1, e2 = (rng.choice([0, 0.25, m / 2]), rng.choice([0, 1, 3]))
+            w2 = [v[0] - e1, v[1] + e2] if sgn > 0 else [v[0] - e2, v[1] + e1]
+        elif cross == "touch":
+            w2 = [0.0, v[1] + rng.choice([0, 1])] if sgn > 0 else [v[0] - rng.choice([0, 1]), 0.0]
+        else:
+            c = rng.choice([0.5, 2, 5]) if dy else rng.uniform(0.1, 5)
+            w2 = [-c, v[1] + rng.choice([0, 1])] if sgn > 0 else [v[0] - rng.choice([0, 1]), c]
+        if rng.random() < 0.3:
+            v = [v[0], v[0]] if rng.random() < 0.5 else [v[1], v[1]]
+        return v, w2
+    for k in (-1, -2, -3, -4, 2, 3, 5):
+        for cross in ("same", "touch", "inside"):
+            for kind in ("scalar", "vector", "pbox"):
+                for rep_ in range(S(2, 20)):
+                    dy = rng.random() < 0.6
+                    if kind == "scalar":
+                        x, x2 = pole_pair(dy, cross)
+                        add("int-powers", {"f": "ivl-un", "fn": "powk", "k": k, "cross": cross}, [{"x": x}, {"x": x2}], False, nontriv=(x != x2))
+                    elif kind == "vector":
+                        ps = [pole_pair(dy, "same") for _ in range(3)] + [pole_pair(dy, cross)]
+                        rng.shuffle(ps)
+                        x = [[p_[0][0] for p_ in ps], [p_[0][1] for p_ in ps]]
+                        x2 = [[p_[1][0] for p_ in ps], [p_[1][1] for p_ in ps]]
+                        add("int-powers", {"f": "ivl-un", "fn": "powk", "k": k, "cross": cross}, [{"x": x}, {"x": x2}], False, nontriv=(x != x2))
+                    else:
+                        general = pick_general(rng, 0.25, 0.1)
+                        grid = grid_of(general)
+                        base = base_box(rng, STEPS, rng.choice(["pos", "neg"]), general)
+                        if cross == "same":
+                            bx, bx2 = pair_box(rng, base, grid, keep_sign=True)
+                        else:
+                            bx = (list(base[0]), list(base[1])) if rng.random() < 0.6 else narrow_box(rng, base[0], base[1], grid)
+                            kk = rng.choice([1, 3, STEPS // 2, STEPS])
+                            if min(base[0]) > 0:
+                                edge = 0 if cross == "touch" else -rng.choice([1, 3])
+                                bx2 = ([edge] * kk + list(base[0][kk:]), list(base[1]))
+                            else:
+                                edge = 0 if cross == "touch" else rng.choice([1, 3])
+                                bx2 = (list(base[0]), list(base[1][: STEPS - kk]) + [edge] * kk)
+                            bx, bx2 = (list(bx[0]), list(bx[1])), (sorted(bx2[0]), sorted(bx2[1]))
+                            if not is_sub(bx, bx2):
+                                continue
+                        add("int-powers", {"f": "pb-un", "fn": "powk", "k": k, "cross": cross}, [{"x": bx}, {"x": bx2}], False, nontriv=(bx != bx2))
+    # domain edges of sqrt / log: the wider operand starts just below the domain (lo = -1e-17, lo = 0 for log)
+    for fn in ("sqrt", "log"):
+        for edge in (-1e-17, -1e-300, -0.5, 0.0):
+            for kind in ("scalar", "pbox"):
+                hi_ = rng.choice([0.5, 1.0, 4.0])
+                lo_ = rng.choice([1e-9, 0.25, hi_ / 2])
+                if kind == "scalar":
+                    add("domain-edge", {"f": "ivl-un", "fn": fn}, [{"x": [lo_, hi_]}, {"x": [edge, hi_]}], False)
+                else:
+                    l1 = [lo_] * STEPS
+                    kk = rng.choice([1, 50, STEPS])
+                    add("domain-edge", {"f": "pb-un", "fn": rng.choice([fn, "np" + fn])},
+                        [{"x": [l1, [hi_] * STEPS]}, {"x": [[edge] * kk + l1[kk:], [hi_] * STEPS]}], False)
     # ---- 3. nested interval expressions
     for _ in range(S(600, 7000)):
         nv = rng.choice([1, 2, 3])
@@ -1519,7 +1633,7 @@ def gen_cases(ctx):
             nontriv=(b1 != b2 and bool(tree_vars(t))))
     # ---- 4. raw combination rules, small n (index arithmetic exhaustively exercised)
     signs = ["pos", "neg", "str", None, "pos0", "neg0"]
-    for _ in range(S(1500, 18000)):
+    for _ in range(S(1200, 18000)):
         n = rng.choice([1, 2, 2, 3, 3, 4, 5, 6])
         rule = rng.choice(["frechet", "frechet", "perfect", "opposite", "independent", "naive"])
         op = rng.choice(["add", "mul"])
@@ -1600,6 +1714,19 @@ def gen_cases(ctx):
                         add("pb-zero", {"f": "pb-bin", "op": op, "dep": dep, "ykind": "pbox", "bare": False, "touch": touch,
                                         "role": role, "touching": pos},
                             runs, exact=(general is not True and op != "div"))
+    # ---- 5c. lesson F: the SAME object on both sides (X op X, envelope(a, a), a.imp(a)); the operand is re-read later
+    for op in OPS4:
+        for dep in "fpoi":
+            general = pick_general(rng, 0.2, 0.0)
+            sx = rng.choice(["pos", "neg"]) if op == "div" else rng.choice(signs)
+            x, x2 = pair_box(rng, base_box(rng, STEPS, sx, general), grid_of(general), keep_sign=(op == "div"))
+            add("same-object", {"f": "pb-bin", "op": op, "dep": dep, "ykind": "pbox", "bare": dep == "f" and rng.random() < 0.5, "alias": True},
+                [{"x": x, "y": x}, {"x": x2, "y": x2}], exact=(general is not True and op != "div"), nontriv=(x != x2))
+    for agg in ("env", "imp"):
+        for api in ("method", "public"):
+            x, x2 = pair_box(rng, base_box(rng, STEPS, None, False), "int")
+            add("same-object", {"f": "pb-agg", "agg": agg, "api": api, "kinds": ["pbox", "pbox"], "alias": True},
+                [{"ops": [x, x]}, {"ops": [x2, x2]}], True, nontriv=(x != x2))
     # ---- 6. number operands, negation, reciprocal
     for _ in range(S(120, 2000)):
         general = pick_general(rng, 0.25, 0.15)
@@ -1829,7 +1956,7 @@ def gen_cases(ctx):
         add("pb-raw-thin", {"f": "pb-raw", "rule": rule, "op": op, "n": n}, [{"x": x, "y": y}, {"x": x2, "y": y2}], False,
             nontriv=(x != x2 or y != y2))
     # ---- 13. interval propagation (b2b) with a fixed discretisation
-    for gi in range(S(260, 6000)):
+    for gi in range(S(220, 6000)):
         d = rng.choice([2, 2, 3])
         strategy = rng.choice(["direct", "endpoints", "subinterval", "subinterval"])
         style = rng.choice(["direct", "endpoints"]) if strategy == "subinterval" else None
